@@ -15,28 +15,28 @@ CHECKS = {
     'C09': dict(
         category='exploration', design_ref='DESIGN.md section 3, C09',
         technique='bounded-exhaustive enumeration of full Cartesian parameter grids for the bundled builders, each point solved by the library and compared period by period with a closed-form recursion over exact rationals (gap oracle)',
-        text='1 248 points (quick): SIM / SIMEX1 (alpha1 x alpha2 x theta x 4 G-paths x initial wealth x initial expectation), PC (+ lambda0..2, r-path, initial stocks none/book/all-cash), ModelSIMiterative; '
+        text='Full Cartesian grids: SIM / SIMEX1 (alpha1 x alpha2 x theta x 4 G-paths x initial wealth x initial expectation), PC (+ lambda0..2, r-path, initial stocks none/book/all-cash), ModelSIMiterative; '
              'Y, T, YD, C, H/V, bills, money for k = 1..horizon at solver tolerance 1e-12 and at the default tolerance.',
         note='Grid points only (<= 4-decimal parameters); ConvergenceError counts as indeterminate. PC: household-side series.'),
     'C13': dict(
         category='exploration', design_ref='DESIGN.md section 3, C13',
         technique='bounded-exhaustive enumeration of (expression, renaming map) pairs for the three public utilities and for Term/Equation/EquationBlock.ReplaceTokensFromLookup; independent regex scanner + evaluation under renamed environments',
-        text='5.1 million pairs (quick): all expressions of <= 3 tokens over the full atom alphabet and <= 5 tokens over a reduced one, compact and padded, x all maps of size <= 2 (swaps, chains, prefixes, absent names, placeholder-shaped targets).',
+        text='Several million pairs: all expressions of <= 3 tokens over the full atom alphabet and <= 5 tokens over a reduced one, compact and padded, x all maps of size <= 2 (swaps, chains, prefixes, absent names, placeholder-shaped targets).',
         note='Trusted: the 10-line scanner regex and Python eval. Output spacing is free; comparison is token-wise.'),
     'C16': dict(
         category='model_checking', design_ref='DESIGN.md section 3, C16',
         technique='exhaustive enumeration of call histories (retrieval / flag changes / caller-side mutation / rendering) replayed on freshly solved real objects; immutable snapshot reference compared after every transition',
-        text='34 184 histories (quick, depth 3 over 33 operations on Model.GetTimeSeries / EquationSolver / TimeSeriesHolder, depth 4 on a BaseSolver subclass): return value == snapshot slice, stored holders == snapshot, rendering == independent rendering of the snapshot and repeatable.',
+        text='All histories (depth 3 quick / 4 thorough over 33 operations on Model.GetTimeSeries / EquationSolver / TimeSeriesHolder, depth 4 on a BaseSolver subclass): return value == snapshot slice, stored holders == snapshot, rendering == independent rendering of the snapshot and repeatable.',
         note='Trusted: the deep snapshot and the 10-line reference renderer.'),
     'C17': dict(
         category='model_checking', design_ref='DESIGN.md section 3, C17',
         technique='exhaustive enumeration of job sequences executed inside one interpreter (process-wide counters and logger state leak between jobs) against baselines computed in separate fresh processes',
-        text='5 888 sequences (quick): all pairs over 16 jobs x 4 diagnostics settings and all triples over a reduced alphabet; each job\'s complete TimeSeries must equal its fresh-process baseline; re-parsed solvers report exactly the new block.',
+        text='All pairs over 18 jobs x 3 diagnostics settings and all triples over a reduced alphabet; each job\'s complete TimeSeries must equal its fresh-process baseline; re-parsed solvers report exactly the new block.',
         note='Two baseline interpreters per job are diffed first. Worker processes run many sequences back to back, which only lengthens the histories.'),
     'C19': dict(
         category='exploration', design_ref='DESIGN.md section 3, C19',
         technique='bounded-exhaustive table enumeration on the real TimeSeriesHolder and solver wrapper, parsed back by an independent TSV parser',
-        text='75 951 renderings (quick): every subset of <= 4 of 11 series names x 9 value rotations x 3 length profiles x 5 formats; solved blocks through EquationSolver.GenerateCSVtext(format), holder and step-trace; header, order, row count, every cell.',
+        text='Every subset of <= 4 of 11 series names x 9 value rotations x 3 length profiles x 5 formats, and the history render -> store another series -> render; solved blocks through EquationSolver.GenerateCSVtext(format), holder and step-trace; header, order, row count, every cell.',
         note='Alphabetical = code-point or case-insensitive order.'),
     'C02': dict(
         category='exploration', design_ref='DESIGN.md section 3, C02',
@@ -47,42 +47,42 @@ CHECKS = {
     'C03': dict(
         category='exploration', design_ref='DESIGN.md section 3, C03',
         technique='bounded-exhaustive differential enumeration: every block of the alias/decorative feature product solved with reduction on and off by the real solver, series compared value by value',
-        text='7 504 blocks (quick): core x alias target kind x chain length x declaration order x alias user x decorative tree x initial-condition position x lag source; same variable set, '
+        text='Every block of the feature product: core x alias target kind x chain length x declaration order x alias user x decorative tree x initial-condition position x lag source; same variable set, '
              'k=0 exactly equal, k>=1 bit-for-bit (acyclic) or within a gap at tolerance 1e-10 (cyclic).',
         note='Alias cycles excluded (documented user error). Trusted: nothing beyond the two runs of the implementation itself.'),
     'C05': dict(
         category='model_checking', design_ref='DESIGN.md section 3, C05',
         technique='explicit enumeration of construction histories (request point x variable x owner x embedding places x country configuration) on the real objects + all topology specs; closure/canonical-name/placeholder/meaning oracle on the emitted text via the independent reader',
-        text='5 040 histories (quick): GetVariableName requested right after the sector exists / after all sectors / after early full-code generation (LogInfo), embedded in up to 2 of 10 places, '
-             'with one country, two countries, an external sector, or a country added after the early generation; plus 229 topology specs. Every left-hand side once, canonical names, closed, no _<id>__ token, meaning preserved.',
+        text='Every construction history of the product: GetVariableName requested right after the sector exists / after all sectors / after early full-code generation (LogInfo), embedded in up to 2 (quick) / 3 (thorough) of 11 places, '
+             'with one country, two countries, an external sector, or a country added after the early generation; plus every topology spec within the deviation bound. Every left-hand side once, canonical names, closed, no _<id>__ token, meaning preserved.',
         note='Trusted: mc/exact.read_block and evaluator. A name that was canonical when handed out and is embedded by the user before a further country is added cannot be rewritten by any library; that history is outside the alphabet.'),
     'C10': dict(
         category='exploration', design_ref='DESIGN.md section 3, C10',
         technique='bounded-exhaustive enumeration of input forms (exogenous specification x length x initial condition position/value x horizon source x time variable x reduction) on the real solver and Model; exact == oracle',
-        text='20 466 cases (quick) through EquationSolver and Model: lengths horizon+1, k axis, exogenous series equal to the supplied prefix, k=0 equal to the stated initial condition for 7 kinds of variable, lag identity, t == k, '
+        text='Every case of the input-form product through EquationSolver and Model (incl. one solver re-used for two blocks): lengths horizon+1, k axis, exogenous series equal to the supplied prefix, k=0 equal to the stated initial condition for 7 kinds of variable, lag identity, t == k, '
              'short/unevaluable input rejected with no period produced.',
         note='An int scalar may be rejected or broadcast. Rejection = any exception.'),
     'C11': dict(
         category='exploration', design_ref='DESIGN.md section 3, C11',
         technique='bounded-exhaustive enumeration of failure families x caps x tolerances (sweep count read from the public step trace, wall-clock watchdog), of all small affine contractions, and of the complete stdlib name lists',
         text='(a) 13 failure families switched on in period 1..3 x 7 caps x 2 tolerances x reduction: ValueError/ConvergenceError, <= cap+1 sweeps, equal-length series identical to the shorter-horizon solve; '
-             '(b) 26 912 two-variable contractions + n=12 worst cases + non-linear contractions solved within the default cap; (c) 251 names x 3 positions + 182 RHS tokens x reduction x entry point, 10 ill-formed declarations refused with no numbers.',
+             '(b) all two-variable contractions of the alphabet + n=12 worst cases + non-linear contractions solved within the default cap; (c) 251 names x 3 positions + 182 RHS tokens x reduction x entry point, 10 ill-formed declarations refused with no numbers.',
         note='A case exceeding 20 s wall-clock counts as unbounded work. Contraction => convergence is covered on the stated grid, not proved over the reals.'),
     'C14': dict(
         category='exploration', design_ref='DESIGN.md section 3, C14',
         technique='bounded-exhaustive enumeration of line orders x spacings x lag spellings x hostile comments; real EquationParser compared with the independent classifier; comment-free twin differential; Model description differential',
-        text='35 067 blocks (quick): all permutations of 6-line endogenous sections (incl. names ending in 0, comment-only lines containing "=", malformed lines), 3 spacings, 3 lag spellings, 14 hostile comment texts on every line, '
+        text='All permutations of 6-line endogenous sections (incl. names ending in 0, comment-only lines containing "=", malformed lines), 3 spacings, 3 lag spellings, 14 hostile comment texts on every line, '
              '5 marker spellings, descriptions/long names through Model.',
         note='Trusted: mc/exact.read_block (strips the comment first). Lags inside larger expressions and names containing the marker word are outside the alphabet (as in the property).'),
     'C15': dict(
         category='exploration', design_ref='DESIGN.md section 3, C15',
         technique='bounded-exhaustive enumeration of one-/two-state recursive systems x search settings on the real CalculateInitialSteadyState; accepted states stepped once more with exogenous frozen; deep snapshot comparison',
-        text='33 264 (system, settings) cases (quick): acceptance implies no non-excluded variable moves by more than 2 tol (abs or rel; violated only if both >= 20 tol), rejection is NoEquilibriumError/ValueError, solver inputs untouched.',
+        text='Every (system, settings) pair of the alphabet: acceptance implies no non-excluded variable moves by more than 2 tol (abs or rel; violated only if both >= 20 tol), rejection is NoEquilibriumError/ValueError, solver inputs untouched.',
         note='Tolerances {1e-4, 1e-3}: with a looser steady-state tolerance the search solver (which uses it as its sweep tolerance) leaves read-outs one sweep stale, which would make the verdict depend on solver accuracy rather than on steadiness.'),
     'C20': dict(
         category='exploration', design_ref='DESIGN.md section 3, C20',
         technique='bounded-exhaustive enumeration of equation blocks -> real IterativeMachineGenerator -> import and run the emitted module (twice per generator object); residual/exactness/table oracle, differential against the in-process solver',
-        text='6 300 (block, configuration) cases (quick), two emissions each: module runs, MaxTime+1 values, residuals <= 2B, exogenous exact, agreement with EquationSolver from equal k=0 values, header t-first without duplicates.',
+        text='Every (block, configuration) pair of the menu product, two emissions each: module runs, MaxTime+1 values, residuals <= 2B, exogenous exact, agreement with EquationSolver from equal k=0 values, header t-first without duplicates.',
         note='Blocks restricted to contraction factor <= 0.5 (the generated solver has no damping). Files live under /var/tmp/sfcv-c20-<pid> and are removed.'),
     'C01': dict(
         category='model_checking', design_ref='DESIGN.md section 3, C01',
@@ -109,7 +109,7 @@ CHECKS = {
     'C08': dict(
         category='model_checking', design_ref='DESIGN.md section 3, C08',
         technique='exhaustive permutation of construction histories (all dependency-respecting declaration orders of a country, or all single moves/transpositions/reversal for large countries); states reached through different histories compared by exact solution',
-        text='17 structurally different economies; every permutation of the sector declarations of a country (<= 6 declarations quick, <= 7 thorough) and '
+        text='17 structurally different economies (one- and two-country, federated, gold standard); every permutation of the sector declarations of a country (<= 6 declarations quick, <= 7 thorough) and '
              'all O(n^2) moves for larger ones are executed on the real constructors; the exact rational solution of each emitted system must equal that of the canonical order.',
         note='Trusted: mc/exact.py, mc/topo.py. Post-declaration calls stay in a fixed tail; countries are created in a fixed order.'),
     'C18': dict(
